@@ -97,7 +97,9 @@ fn operand_load(
         } => {
             let reg = get_register(*reg)?;
             let reg_value = reg.get();
-            assert_eq!(reg.bits(), 128);
+            if reg.bits() != 128 {
+                return Err(unsupported());
+            }
 
             let (shift, width) = arr_spec_offset_width(arrspec);
 
@@ -355,7 +357,7 @@ fn mem_operand_address(opr: &bad64::Operand) -> Result<(il::Expression, MemOpera
         | bad64::Operand::Cond(_)
         | bad64::Operand::Label(_)
         | bad64::Operand::Name(_)
-        | bad64::Operand::StrImm { .. } => unreachable!("Memory operand is expected here"),
+        | bad64::Operand::StrImm { .. } => return Err(unsupported()),
     };
 
     Ok((address_expr, sideeffect))
@@ -599,7 +601,7 @@ pub(super) fn add(
         let rhs = operand_load(block, &instruction.operands()[2], bits)?;
 
         // perform operation
-        let src = il::Expression::add(lhs, rhs).unwrap();
+        let src = il::Expression::add(lhs, rhs).map_err(|_| unsupported())?;
 
         // store result
         operand_store(block, &instruction.operands()[0], src)?;
@@ -1389,7 +1391,7 @@ pub(super) fn sub(
         let rhs = operand_load(block, &instruction.operands()[2], bits)?;
 
         // perform operation
-        let src = il::Expression::sub(lhs, rhs).unwrap();
+        let src = il::Expression::sub(lhs, rhs).map_err(|_| unsupported())?;
 
         // store result
         operand_store(block, &instruction.operands()[0], src)?;
